@@ -3,7 +3,7 @@
     read-back after re-open. *)
 From Coq Require Import List ZArith NArith Bool.
 From Kardia Require Import C08.Model C08.ProofsEqv C08.ProofsUndo C08.ProofsRevert C08.Proofs.
-From Kardia Require Import C08.ModelSnap C08.ProofsSnap C08.ProofsSnapDB.
+From Kardia Require Import C08.ModelSnap C08.ProofsSnap C08.ProofsSnapDB C08.ProofsSnapBridge.
 Import ListNotations.
 Local Open Scope N_scope.
 
@@ -98,26 +98,24 @@ Definition C08_readback_statement : Prop :=
     Proved since (Properties.v): reads through any chain of layers built by Update/Cap = overlay of the
     blocks' data (C08_snapshot_layers_read_content), bloom independence, Cap/flatten/diffToDisk
     preserve content, the StateDB's snapshot data is restored exactly by RevertToSnapshot
-    (C08_snapdata_revert_exact).
-    Still open — the bridge between the two: the data Commit hands to Tree.Update, laid over the
-    content of the layer the StateDB was attached to, is the committed content (accounts: nonce,
-    balance, code; flat storage: the storage-trie content of existing accounts, nothing under absent
-    ones).  Exercised by the harness on every Commit (oracle snap-layer-read: every account and slot
-    of the universe read from the layer vs. the tries at the same root; Tree.Verify). *)
-Definition flat (c : fmap account) (a k : N) : N := match c a with Some d => ac_storage d k | None => 0 end.
+    (C08_snapdata_revert_exact), and the hand-over theorem C08_snapshot_handover_partial: if the
+    invariant [Sync] (ProofsSnapBridge.v) holds when Commit is called, the data handed to Tree.Update,
+    laid over the content of the parent layer, is the committed content (accounts and flat storage).
+    Still open: [Sync] holds in every state reachable from a freshly opened, attached StateDB (it does
+    for the fresh one: C08_sync_new).  The extracted boolean form ModelSnap.sync_ok is evaluated by
+    the model driver after every operation of every generated case (a violation would surface as a
+    model/implementation mismatch "UNSYNC"); the harness compares every layer with the tries at the
+    same root after every Commit (oracle snap-layer-read, Tree.Verify). *)
+Definition C08_sync_reachable_statement : Prop :=
+  forall base layer ss, ss = snew_state base (Some layer) ->
+    forall ops, (forall o, In o ops -> match o with OCommit _ => False | _ => True end) ->
+      Sync base (srun ops ss).
 
+(** with it, the full hand-over statement (for every history, not only under [Sync]) *)
 Definition C08_snapshot_handover_statement : Prop :=
-  forall base layer ops de ss,
-    ss = srun ops (snew_state base (Some layer)) ->
+  forall base layer ops de,
     (forall o, In o ops -> match o with OCommit _ => False | _ => True end) ->
-    match scommit de ss with
-    | (_, c, Some h) =>
-      forall a k,
-        (match over_acc1 (mkDL 0 (ho_destructs h) (ho_accs h) (ho_stos h)) base a, c a with
-         | Some x, Some y => ac_nonce x = ac_nonce y /\ ac_balance x = ac_balance y /\ ac_code x = ac_code y
-         | None, None => True
-         | _, _ => False
-         end) /\
-        over_sto1 (mkDL 0 (ho_destructs h) (ho_accs h) (ho_stos h)) (flat base) a k = flat c a k
-    | (_, _, None) => False
-    end.
+    let ss := srun ops (snew_state base (Some layer)) in
+    exists ss' h, scommit de ss = (ss', snd (commit de (ss_st ss)), Some h) /\
+      forall a, over_acc1 (handover_layer h) base a = snd (commit de (ss_st ss)) a /\
+                forall k, over_sto1 (handover_layer h) (flat base) a k = flat (snd (commit de (ss_st ss))) a k.
